@@ -93,6 +93,12 @@ func histCatalogue() []hprog {
 		{Name: "P6-chain", Tasks: []htask{{Name: "ta", Lits: []string{"a.txt"}}, {Name: "tb", Deps: []string{"ta"}, Lits: []string{"b.txt"}}}, Files: []hfile{lit("a.txt"), lit("b.txt")}},
 		{Name: "P7-glob-literal-overlap", Tasks: []htask{{Name: "ta", Globs: []string{"*.src"}, Lits: []string{"a.txt"}}, {Name: "tb", Globs: []string{"*.src"}}},
 			Files: []hfile{lit("a.txt"), globf("x.src", absent, "v0", "v1"), globf("sub/y.src", absent, "v0")}},
+		// the same file reached twice: named literally and matched by the glob
+		{Name: "P9-literal-also-globbed", Tasks: []htask{{Name: "ta", Globs: []string{"*.src"}, Lits: []string{"x.src"}}},
+			Files: []hfile{globf("x.src", "v0", "v1", absent), globf("y.src", absent, "v0")}},
+		// a literal dependency that can go missing: the run then aborts with an error after earlier tasks have run
+		{Name: "P10-deletable-literal", Tasks: []htask{{Name: "ta", Lits: []string{"a.txt"}}, {Name: "tb", Lits: []string{"b.txt"}}},
+			Files: []hfile{lit("a.txt"), globf("b.txt", "v0", absent)}},
 		{Name: "P8-three-tasks", Tasks: []htask{{Name: "ta", Lits: []string{"a.txt"}}, {Name: "tb", Lits: []string{"b.txt"}}, {Name: "tc", Deps: []string{"ta", "tb"}}}, Files: []hfile{lit("a.txt"), lit("b.txt")}},
 	}
 }
